@@ -206,8 +206,9 @@ def run(prog, rep):
             ln, what = s["why"].get(r, (fn.node.lineno, ""))
             rep.fail("C19.globals", f"{fn.qualname}:{r[1]}", f"{fn.file}:{ln}", f"mutates module-level state {r[1]}: {what}")
         if is_model:
-            writes = sorted(a for a in s["selfw"] if (fn.qualname, a) not in ALLOW_SELF_WRITE)
-            deep = sorted(r[1] for r in s["mut"] if r[0] == "selfattr" and (fn.qualname, r[1]) not in ALLOW_SELF_WRITE)
+            from .purity import allowed as _memo_ok
+            writes = sorted(a for a in s["selfw"] if (fn.qualname, a) not in ALLOW_SELF_WRITE and not _memo_ok(prog, fn.qualname, a))
+            deep = sorted(r[1] for r in s["mut"] if r[0] == "selfattr" and (fn.qualname, r[1]) not in ALLOW_SELF_WRITE and not _memo_ok(prog, fn.qualname, r[1]))
             if writes or deep:
                 for a in writes:
                     rep.fail("C19.nomodelwrite", f"{fn.qualname}:self.{a}", site, f"evaluation writes attribute self.{a} of the model / distribution object")
